@@ -8,7 +8,7 @@ from typing import Any, Dict, List, Optional, Set, Tuple
 
 from ..cfg import CFG
 from ..model import AnalysisError, ClassInfo, FuncInfo, Repo, attr_chain, parent, walk_shallow
-from ..peval import NO_MATCH, Evaluator, NotEvaluable, Obj, Raised, Sym
+from ..peval import NO_MATCH, Evaluator, NotEvaluable, Obj, Raised, Sym, empty_defaults
 from ..report import RuleRun
 from ..util import node_calls
 from .c10 import _run, corner_point, real_operation, sym_face
@@ -460,6 +460,7 @@ def guard_eval(repo: Repo) -> RuleRun:
         fn = repo.func(qn)
         m = Obj("mesh", cls=repo.cls("mesh.Mesh"))
         m.set("is_assembled", False)
+        empty_defaults(repo, repo.cls("mesh.Mesh"), m)
         expect(fn, _try(Evaluator(repo=repo, module=fn.module), fn, [m]), True, label, ("RuntimeError",))
     # chaining
     for qn, exc in (("construct.shapes.cylinder.Cylinder.chain", "CylinderCreationError"), ("construct.shapes.frustum.Frustum.chain", "FrustumCreationError"), ("construct.shapes.rings.ExtrudedRing.chain", "ExtrudedRingCreationError")):
